@@ -326,7 +326,8 @@ func specFrameOK(data []byte) bool {
 // what it OBSERVED. zzCalls("x") is the number of times the call performed operation x.
 // ====================================================================================================
 
-func zzCalls(name string) int { panic("spec only") }
+func zzCalls(name string) int     { panic("spec only") }
+func zzRet[T any](name string) T { panic("spec only") }
 
 //@ func (*connection).IsSelected
 //@ observe IsSelected
@@ -366,6 +367,8 @@ func specIsRejectErr(err error) bool { _, ok := err.(*RejectError); return ok }
 //@ ensures [gate]     specIsData(msg) && zzCalls("IsSelected:false") > 0 ==> zzCalls("hsms.(transport).Write") == 0 &&
 //@                    result1 == ErrNotSelectedState && zzCalls("hsms.(*ConnectionMetrics).incDataMsgDropNotSelected") == 1 && result0 == nil
 //@ ensures [once]     zzCalls("hsms.(transport).Write") <= 1 && zzCalls("hsms.(*ConnectionMetrics).incDataMsgDropNotSelected") <= 1
+//@ ensures [notopen]  zzRet[*epoch]("atomic.Load:cur") == nil ==> result1 == ErrNotOpen && result0 == nil && zzCalls("hsms.(transport).Write") == 0 &&
+//@                    zzCalls("hsms.(*ConnectionMetrics).incDataMsgDropNotSelected") == 0
 //@ ensures [inflight] zzCalls("hsms.(*ConnectionMetrics).incDataMsgInflight") == zzCalls("hsms.(*ConnectionMetrics).decDataMsgInflight") &&
 //@                    zzCalls("hsms.(*ConnectionMetrics).incDataMsgInflight") <= 1
 //@ ensures [inflightw] zzCalls("hsms.(*ConnectionMetrics).incDataMsgInflight") == 1 ==> zzCalls("hsms.(*ConnectionMetrics).incDataMsgSend") == 1 && specIsData(msg)
@@ -385,6 +388,7 @@ func specIsRejectErr(err error) bool { _, ok := err.(*RejectError); return ok }
 //@ ensures [gate]  specIsData(msg) && zzCalls("IsSelected:false") > 0 ==> zzCalls("hsms.(transport).Write") == 0 &&
 //@                 result == ErrNotSelectedState && zzCalls("hsms.(*ConnectionMetrics).incDataMsgDropNotSelected") == 1
 //@ ensures [once]  zzCalls("hsms.(transport).Write") <= 1
+//@ ensures [notopen] zzRet[*epoch]("atomic.Load:cur") == nil ==> result == ErrNotOpen && zzCalls("hsms.(transport).Write") == 0 && zzCalls("hsms.(*ConnectionMetrics).incDataMsgDropNotSelected") == 0
 //@ ensures [ctl]   !specIsData(msg) ==> zzCalls("hsms.(*ConnectionMetrics).incDataMsgSend") == 0 && zzCalls("hsms.(*ConnectionMetrics).incDataMsgErr") == 0 && zzCalls("hsms.(*ConnectionMetrics).incDataMsgDropNotSelected") == 0
 
 //@ func (*connection).SendAsync
@@ -394,6 +398,7 @@ func specIsRejectErr(err error) bool { _, ok := err.(*RejectError); return ok }
 //@ ensures [gate]  specIsData(msg) && zzCalls("IsSelected:false") > 0 ==> zzCalls("chan.send") == 0 &&
 //@                 result == ErrNotSelectedState && zzCalls("hsms.(*ConnectionMetrics).incDataMsgDropNotSelected") == 1
 //@ ensures [ctl]   !specIsData(msg) ==> zzCalls("hsms.(*ConnectionMetrics).incDataMsgDropNotSelected") == 0
+//@ ensures [notopen] zzRet[*epoch]("atomic.Load:cur") == nil ==> result == ErrNotOpen && zzCalls("chan.send") == 0 && zzCalls("hsms.(*ConnectionMetrics).incDataMsgDropNotSelected") == 0
 //@ ensures [queue] zzCalls("chan.send") <= 1 && (zzCalls("chan.send") == 1 ==> result == nil)
 
 // ---- session entry points: every data send is built by NewDataMessage (so an invalid combination or an item that
